@@ -224,7 +224,8 @@ func (server *GripServer) BulkAdd(stream gripql.Edit_BulkAddServer) error {
 	var insertCount int32
 	var errorCount int32
 
-	elementStream := make(chan *gdbi.GraphElement, 100)
+	// nil while no graph is selected (at the start and after a graph could not be resolved)
+	var elementStream chan *gdbi.GraphElement
 	wg := &sync.WaitGroup{}
 
 	for {
@@ -247,8 +248,11 @@ func (server *GripServer) BulkAdd(stream gripql.Edit_BulkAddServer) error {
 
 		// create a BulkAdd stream per graph
 		// close and switch when a new graph is encountered
-		if element.Graph != graphName {
-			close(elementStream)
+		if elementStream == nil || element.Graph != graphName {
+			if elementStream != nil {
+				close(elementStream)
+				elementStream = nil
+			}
 			// the loader of the previous graph must be done before the next one starts:
 			// a later segment for the same graph has to be written after the earlier one
 			wg.Wait()
@@ -308,7 +312,9 @@ func (server *GripServer) BulkAdd(stream gripql.Edit_BulkAddServer) error {
 		}
 	}
 
-	close(elementStream)
+	if elementStream != nil {
+		close(elementStream)
+	}
 	wg.Wait()
 
 	return stream.SendAndClose(&gripql.BulkEditResult{InsertCount: insertCount, ErrorCount: errorCount})
